@@ -45,7 +45,7 @@ def replayS (D : Defs) (op : OpInst) (d : SDir) (st : PState) : PState :=
   | .resultTy i _ => { st with resultTys := AL.set st.resultTys i (seg op.resultTys i) }
   | .region i _ => { st with regions := AL.set st.regions i (seg op.regions i) }
   | .succ i _ => { st with succs := AL.set st.succs i (seg op.succs i) }
-  | .attr name isProp optional _ dflt =>
+  | .attr name isProp optional dflt =>
     match dictGet isProp op name with
     | none => st
     | some v => if optional && dflt == some v then st else setDict isProp st name v
@@ -65,7 +65,7 @@ def okInst (op : OpInst) : SDir → Prop
   | .region i .opt => (seg op.regions i).length ≤ 1
   | .succ i .single => (seg op.succs i).length = 1
   | .succ i .opt => (seg op.succs i).length ≤ 1
-  | .attr name isProp optional _ _ => optional = false → (dictGet isProp op name).isSome = true
+  | .attr name isProp optional _ => optional = false → (dictGet isProp op name).isSome = true
   | _ => True
 
 /-- the token after the directive is not one the directive would take -/
@@ -95,7 +95,7 @@ theorem dictEntries_not_reserved (D : Defs) (reserved expProps : List String) (o
 /-- a simple directive of the proved fragment parses back exactly the tokens it printed and puts the
 operation's own value into its slot -/
 theorem parseS_printS (D : Defs) (op : OpInst) (d : SDir) (rest : List Tok) (st : PState)
-    (hfrag : inFragment d = true) (hshape : okShape d = true ∨ printS D op d ≠ [])
+    (hfrag : inFragment d = true)
     (hinst : okInst op d) (hf : FollowOK d rest) :
     ∃ b, parseS D d (printS D op d ++ rest) st = some (b, replayS D op d st, rest) := by
   cases d with
@@ -175,32 +175,23 @@ theorem parseS_printS (D : Defs) (op : OpInst) (d : SDir) (rest : List Tok) (st 
       have := optList_commaSep selMk_succ badNone (seg op.succs i) rest (hf.comma rfl)
         (fun _ => passes_succ (hf.absent rfl))
       simp [parseS, printS, replayS, this]
-  | attr name isProp optional optParse dflt =>
+  | attr name isProp optional dflt =>
     simp only [okInst] at hinst
-    simp only [okShape, printS] at hshape
     have habs : optional = true → Passes selAttr badAttr rest := fun h =>
       passes_attr (hf.absent (by simpa [nullableS] using h))
     cases hg : dictGet isProp op name with
     | none =>
-      simp only [hg] at hshape
       cases optional with
       | false => simp [hg] at hinst
-      | true =>
-        cases optParse with
-        | false => simp at hshape
-        | true => exact ⟨false, by simp [parseS, printS, replayS, hg, optOne_none badAttr rest (habs rfl)]⟩
+      | true => exact ⟨false, by simp [parseS, printS, replayS, hg, optOne_none badAttr rest (habs rfl)]⟩
     | some v =>
-      simp only [hg] at hshape
       by_cases he : (optional && dflt == some v) = true
-      · simp only [he, if_true] at hshape
-        have hopt : optional = true := by
+      · have hopt : optional = true := by
           cases optional <;> simp_all
         subst hopt
-        cases optParse with
-        | false => simp at hshape
-        | true => exact ⟨false, by simp [parseS, printS, replayS, hg, he, optOne_none badAttr rest (habs rfl)]⟩
-      · cases optParse with
-        | false => exact ⟨true, by simp [parseS, printS, replayS, hg, he, reqOne, selAttr]⟩
+        exact ⟨false, by simp [parseS, printS, replayS, hg, he, optOne_none badAttr rest (habs rfl)]⟩
+      · cases optional with
+        | false => exact ⟨true, by simp [parseS, printS, replayS, hg, reqOne, selAttr]⟩
         | true => exact ⟨true, by simp [parseS, printS, replayS, hg, he, optOne, selAttr]⟩
   | unitAttr name isProp u => exact ⟨true, by simp [parseS, printS, replayS]⟩
   | attrDict withKw reserved expProps =>
